@@ -54,9 +54,21 @@ GCM = dict(
            for o in (0, 1, 5, 15, 16) for n in (1, 5, 15, 16, 17, 32, 33, 37) for d in (0, 1) for ip in (0, 1)],
 )
 HARNESSES = [GCM, MD(256), MD(1), MD(512), MD(5, tier_hash="thorough"), HMAC(5, 64), HMAC(1, 64), HMAC(256, 64), HMAC(384, 128)]
+HARNESSES.append(dict(
+    name="hkdf_expand", src="hkdf.c", checks=COMMON["MEMCHECKS"], units=["crypto/common/alg_info.c"],
+    functions=["psHkdfExpand", "psGetOutputBlockLength"], sources=["crypto/digest/hkdf.c"],
+    assumptions=["hkdf_expand: psHmac is a logging stub with arbitrary output (HMAC-SHA256, 32-byte blocks); PRK of 32 bytes; info 0..6 bytes; L = 0..70 (up to 3 blocks)"],
+    undefined_ok="*", unwind=80, cbmc_flags=["--object-bits", "11"],
+    cases=[dict(name="l70", defs={"VF_OP": 0, "VF_MAXL": 70})]))
+HKDF_LABEL = (dict(
+    name="hkdf_label", src="hkdf.c", checks=COMMON["MEMCHECKS"], units=["crypto/common/alg_info.c"],
+    functions=["psHkdfExpandLabel", "psDynBufInit", "psDynBufAppendTlsVector", "psDynBufDetachPsSize"], sources=["crypto/digest/hkdf.c", "core/src/psbuf.c"],
+    assumptions=["hkdf_label: psHkdfExpand is a logging stub; label 1..8 bytes, context 0..8 bytes, any 16-bit length; dynamic buffers over the static-pool heap model (allocation succeeds)"],
+    undefined_ok="*", unwind=70, cbmc_flags=["--object-bits", "11"],
+    cases=[dict(name="any", defs={"VF_OP": 1})]))
 PROPERTY = dict(level='model_checking',
-    claim='Modulo the compression/block functions (logging stubs): digest buffering, padding and length encoding (inductive step covering every split), HMAC per RFC 2104 incl. long keys, GCM CTR/GHASH streaming core independent of the split.',
+    claim='Modulo the compression/block functions (logging stubs): digest buffering, padding and length encoding (inductive step covering every split), HMAC per RFC 2104 incl. long keys, GCM CTR/GHASH streaming core independent of the split; HKDF-Expand per RFC 5869 (block inputs T(k-1) || info || k, OKM = prefix of the concatenation) for every length 0..70.',
     bounds='every enumerated (curlen, n) pair of the quick set (thorough: all 64x131 for SHA-256), key lengths around the block size, GCM lengths <= 37',
-    outside='the compression functions, AES, GHASH multiplication, ChaCha20-Poly1305, HKDF, PBKDF2, CBC modes; lengths beyond the bounds',
-    explanation='Modulo the compression/block functions (logging stubs): digest buffering, padding and length encoding (inductive step covering every split), HMAC per RFC 2104 incl. long keys, GCM CTR/GHASH streaming core independent of the split.',
+    outside='the compression functions, AES, GHASH multiplication, ChaCha20-Poly1305, HKDF-Extract and the TLS 1.3 label encoding, PBKDF2, CBC modes; lengths beyond the bounds',
+    explanation='Modulo the compression/block functions (logging stubs): digest buffering, padding and length encoding (inductive step covering every split), HMAC per RFC 2104 incl. long keys, GCM CTR/GHASH streaming core independent of the split; HKDF-Expand per RFC 5869 (block inputs T(k-1) || info || k, OKM = prefix of the concatenation) for every length 0..70.',
     assumptions=[])
